@@ -956,6 +956,16 @@ func (c *wsConn) handleWsConn(ctx context.Context) {
 		case <-ctx.Done():
 			vhook("main.ctxdone", c)
 			log.Debugw("context cancelled", "error", ctx.Err(), "lastAction", action, "time", time.Since(start))
+			if c.connFactory != nil || c.stop != nil {
+				// a client: nobody else closes its connection (a server's is closed by
+				// handleWS when this function returns). Calls made with this context
+				// have been cancelled with it, and the peer learns it from the close.
+				c.writeLk.Lock()
+				if err := c.conn.Close(); err != nil {
+					log.Debugw("websocket close error", "error", err)
+				}
+				c.writeLk.Unlock()
+			}
 			return
 		case req := <-c.requests:
 			action = fmt.Sprintf("send-request(%s,%v)", req.req.Method, req.req.ID)
